@@ -76,7 +76,49 @@ func (p *PackageInfo) GetAllReferencedPackages() []*PackageInfo {
 
 func (p *PackageInfo) validate() error {
 	errorSink := &validation.ErrorSink{}
+	p.checkSettings(errorSink)
 
+	if p.Json != nil {
+		p.Json.PackageInfo = p
+		if p.Json.OutputDir != "" {
+			p.Json.OutputDir = filepath.Join(p.PackageDir(), p.Json.OutputDir)
+		}
+	}
+
+	if p.Cpp != nil {
+		p.Cpp.PackageInfo = p
+		if p.Cpp.SourcesOutputDir != "" {
+			p.Cpp.SourcesOutputDir = filepath.Join(p.PackageDir(), p.Cpp.SourcesOutputDir)
+		}
+	}
+
+	if p.Python != nil {
+		p.Python.PackageInfo = p
+		if p.Python.OutputDir != "" {
+			p.Python.OutputDir = filepath.Join(p.PackageDir(), p.Python.OutputDir)
+		}
+	}
+
+	if p.Matlab != nil {
+		p.Matlab.PackageInfo = p
+		if p.Matlab.OutputDir != "" {
+			p.Matlab.OutputDir = filepath.Join(p.PackageDir(), p.Matlab.OutputDir)
+		}
+	}
+
+	return errorSink.AsError()
+}
+
+// CheckSettings reports settings of the package that are not allowed. The settings
+// are checked when the package is loaded; they have to be checked again after they
+// were overridden on the command line.
+func (p *PackageInfo) CheckSettings() error {
+	errorSink := &validation.ErrorSink{}
+	p.checkSettings(errorSink)
+	return errorSink.AsError()
+}
+
+func (p *PackageInfo) checkSettings(errorSink *validation.ErrorSink) {
 	if p.Namespace == "" {
 		errorSink.Add(validation.NewValidationError(errors.New("the 'namespace' field is missing"), p.FilePath))
 	} else if !namespaceNameRegex.MatchString(p.Namespace) {
@@ -93,43 +135,21 @@ func (p *PackageInfo) validate() error {
 		}
 	}
 
-	if p.Json != nil {
-		p.Json.PackageInfo = p
-		if p.Json.OutputDir == "" {
-			errorSink.Add(validation.NewValidationError(errors.New("the 'json.outputDir' field must not be empty"), p.FilePath))
-		} else {
-			p.Json.OutputDir = filepath.Join(p.PackageDir(), p.Json.OutputDir)
-		}
+	if p.Json != nil && p.Json.OutputDir == "" {
+		errorSink.Add(validation.NewValidationError(errors.New("the 'json.outputDir' field must not be empty"), p.FilePath))
 	}
 
-	if p.Cpp != nil {
-		p.Cpp.PackageInfo = p
-		if p.Cpp.SourcesOutputDir == "" {
-			errorSink.Add(validation.NewValidationError(errors.New("the 'cpp.sourcesOutputDir' field must not be empty"), p.FilePath))
-		} else {
-			p.Cpp.SourcesOutputDir = filepath.Join(p.PackageDir(), p.Cpp.SourcesOutputDir)
-		}
+	if p.Cpp != nil && p.Cpp.SourcesOutputDir == "" {
+		errorSink.Add(validation.NewValidationError(errors.New("the 'cpp.sourcesOutputDir' field must not be empty"), p.FilePath))
 	}
 
-	if p.Python != nil {
-		p.Python.PackageInfo = p
-		if p.Python.OutputDir == "" {
-			errorSink.Add(validation.NewValidationError(errors.New("the 'python.outputDir' field must not be empty"), p.FilePath))
-		} else {
-			p.Python.OutputDir = filepath.Join(p.PackageDir(), p.Python.OutputDir)
-		}
+	if p.Python != nil && p.Python.OutputDir == "" {
+		errorSink.Add(validation.NewValidationError(errors.New("the 'python.outputDir' field must not be empty"), p.FilePath))
 	}
 
-	if p.Matlab != nil {
-		p.Matlab.PackageInfo = p
-		if p.Matlab.OutputDir == "" {
-			errorSink.Add(validation.NewValidationError(errors.New("the 'matlab.outputDir' field must not be empty"), p.FilePath))
-		} else {
-			p.Matlab.OutputDir = filepath.Join(p.PackageDir(), p.Matlab.OutputDir)
-		}
+	if p.Matlab != nil && p.Matlab.OutputDir == "" {
+		errorSink.Add(validation.NewValidationError(errors.New("the 'matlab.outputDir' field must not be empty"), p.FilePath))
 	}
-
-	return errorSink.AsError()
 }
 
 type Import struct {
